@@ -151,3 +151,20 @@ func cmdBaselineLocals() int {
 	println("functions:", len(out))
 	return 0
 }
+
+// lockProps: the properties a lock-discipline obligation (balance at return,
+// balance per loop iteration, self-deadlock, leaf lock) counts for. A call that
+// leaves a lock behind or deadlocks breaks the lock property C14 and, because
+// everything that needs the lock then blocks, every property the function is
+// under contract for.
+func (ex *Exec) lockProps() []string {
+	out := []string{"C14"}
+	if ex.contract != nil && !ex.contract.IsStub {
+		for _, p := range ex.contract.Props {
+			if p != "C14" {
+				out = append(out, p)
+			}
+		}
+	}
+	return out
+}
